@@ -17,7 +17,7 @@ import QuicModel.Rfc.PeerView
     every RETIRE_CONNECTION_ID accepted by `on_retire_connection_id`, in order (`Rfc.PeerView.Ev`).
 -/
 namespace Quic.Conn.LocalIds
-open Quic.Rfc.PeerView (Frame Ev)
+open Quic.Rfc.PeerView (Frame Ev View observe)
 
 abbrev Cid := List Nat
 abbrev Token := List Nat
@@ -137,6 +137,10 @@ structure State where
   map : List (Cid × Nat)
   /-- ghost: wire-level events of this endpoint in emission/processing order -/
   events : List Ev
+  /-- ghost: what the peer is entitled to know = `events` folded through `Rfc.PeerView.observe` -/
+  view : View
+  /-- ghost: every (sequence number, id, token) `register_connection_id` accepted, oldest first -/
+  registered : List (Nat × Cid × Token)
 deriving Repr
 
 inductive Out where
@@ -210,13 +214,13 @@ def registerConnectionId (s : State) (id : Cid) (expiration : Option Nat) (token
         if e < expirationBuffer then (s, .panic "expiration-underflow")
         else if s.nextSeq + 1 ≥ 2 ^ 32 then (s, .panic "sequence-number-overflow")
         else
-          ({ s with map := m, nextSeq := s.nextSeq + 1,
+          ({ s with map := m, nextSeq := s.nextSeq + 1, registered := s.registered ++ [(s.nextSeq, id, token)],
                     ids := s.ids ++ [{ id := id, seq := s.nextSeq, retirementTime := some (e - expirationBuffer),
                                        token := token, status := .pendingIssuance }] }, .ok)
       | none =>
         if s.nextSeq + 1 ≥ 2 ^ 32 then (s, .panic "sequence-number-overflow")
         else
-          ({ s with map := m, nextSeq := s.nextSeq + 1,
+          ({ s with map := m, nextSeq := s.nextSeq + 1, registered := s.registered ++ [(s.nextSeq, id, token)],
                     ids := s.ids ++ [{ id := id, seq := s.nextSeq, retirementTime := none,
                                        token := token, status := .pendingIssuance }] }, .ok)
 
@@ -225,13 +229,14 @@ def registerConnectionId (s : State) (id : Cid) (expiration : Option Nat) (token
 def new (internalId : Nat) (map : List (Cid × Nat)) (handshakeId : Cid) (expiration : Option Nat)
     (token : Token) (rotate : Bool) : Option State :=
   let s0 : State := { internalId := internalId, ids := [], nextSeq := 0, retirePriorTo := 0, limit := 1,
-                      rotateHandshake := rotate, map := map, events := [] }
+                      rotateHandshake := rotate, map := map, events := [], view := {}, registered := [] }
   let (s1, _) := registerConnectionId s0 handshakeId expiration token
   match s1.ids with
   | [] => none
   | i :: rest =>
     some { s1 with ids := { i with status := .active } :: rest,
-                   events := [.hs i.seq i.id (some i.token)] }
+                   events := [.hs i.seq i.id (some i.token)],
+                   view := observe {} (.hs i.seq i.id (some i.token)) }
 
 /-- `iter_mut().find(p)` followed by an update of the element found: the element found (as it was) and the
     list with that FIRST match replaced -/
@@ -256,8 +261,8 @@ def onRetireConnectionId (s : State) (seq : Nat) (dcid : Cid) (rtt now : Nat) : 
     match updateFirst (retirable seq) (fun i => { i with status := .pendingRemoval removal }) s.ids with
     | some (info, ids) =>
       if info.id == dcid then (s, .invalidSequenceNumber)
-      else ({ s with ids := ids, events := s.events ++ [.rxRetire seq] }, .ok)
-    | none => ({ s with events := s.events ++ [.rxRetire seq] }, .ok)
+      else ({ s with ids := ids, events := s.events ++ [.rxRetire seq], view := observe s.view (.rxRetire seq) }, .ok)
+    | none => ({ s with events := s.events ++ [.rxRetire seq], view := observe s.view (.rxRetire seq) }, .ok)
 
 /-- `connection_id_interest`: `none` = u8 subtraction underflow (panic), `some n` = Interest::New(n) / None for 0 -/
 def connectionIdInterest (s : State) : Option Nat :=
@@ -280,34 +285,32 @@ def onTimeout (s : State) (now : Nat) : State :=
     else s
   | none => s
 
-/-- the loop of `on_transmit`: every id whose interest can transmit asks `write_frame`; `writes` is the
-    sequence of answers of the write context (`true` = frame written into packet `pn`) -/
+/-- the loop of `on_transmit`: every id whose interest can transmit asks `write_frame`. The write context
+    is abstracted to `room` = how many more NEW_CONNECTION_ID frames fit into packet `pn` (the frames of one
+    connection have equal size, so once one does not fit none of the following does). -/
 def transmitLoop (rpt : Nat) (c : Constraint) (pn : Nat) :
-    List IdInfo → List Bool → List IdInfo × List Ev
+    List IdInfo → Nat → List IdInfo × List Ev
   | [], _ => ([], [])
-  | i :: rest, writes =>
+  | i :: rest, room =>
     if i.transmissionInterest.canTransmit c then
-      match writes with
-      | true :: ws =>
-        let (r, ev) := transmitLoop rpt c pn rest ws
-        ({ i with status := .pendingAcknowledgement pn } :: r,
+      match room with
+      | r + 1 =>
+        let (ids, ev) := transmitLoop rpt c pn rest r
+        ({ i with status := .pendingAcknowledgement pn } :: ids,
          .txNcid { seq := i.seq, rpt := rpt, cid := i.id, token := i.token } :: ev)
-      | _ :: ws =>
-        let (r, ev) := transmitLoop rpt c pn rest ws
-        (i :: r, ev)
-      | [] =>
-        let (r, ev) := transmitLoop rpt c pn rest []
-        (i :: r, ev)
+      | 0 =>
+        let (ids, ev) := transmitLoop rpt c pn rest 0
+        (i :: ids, ev)
     else
-      let (r, ev) := transmitLoop rpt c pn rest writes
-      (i :: r, ev)
+      let (ids, ev) := transmitLoop rpt c pn rest room
+      (i :: ids, ev)
 
 /-- `on_transmit` -/
-def onTransmit (s : State) (c : Constraint) (pn : Nat) (writes : List Bool) : State :=
+def onTransmit (s : State) (c : Constraint) (pn : Nat) (room : Nat) : State :=
   if !(transmissionInterest s).canTransmit c then s
   else
-    let (ids, ev) := transmitLoop s.retirePriorTo c pn s.ids writes
-    { s with ids := ids, events := s.events ++ ev }
+    let (ids, ev) := transmitLoop s.retirePriorTo c pn s.ids room
+    { s with ids := ids, events := s.events ++ ev, view := ev.foldl observe s.view }
 
 /-- `on_packet_ack` -/
 def onPacketAck (s : State) (set : List Nat) : State :=
@@ -363,12 +366,10 @@ inductive Op where
   | register (id : Cid) (expiration : Option Nat) (token : Token)
   | onRetire (seq : Nat) (dcid : Cid) (rtt now : Nat)
   | onTimeout (now : Nat)
-  | onTransmit (c : Constraint) (pn : Nat) (writes : List Bool)
+  | onTransmit (c : Constraint) (pn : Nat) (room : Nat)
   | onPacketAck (set : List Nat)
   | onPacketLoss (set : List Nat)
   | onHandshakeConfirmed
-  /-- connection-level: interest → generate → register -/
-  | newIds (gen : List (Cid × Token)) (expiration : Option Nat)
   /-- another connection of the endpoint registers one of its ids at the shared mapper -/
   | envInsert (id : Cid) (owner : Nat)
   /-- another connection unregisters one of ITS ids (a registry only ever removes ids it inserted) -/
@@ -385,7 +386,6 @@ def step (p : Nat) (s : State) : Op → State × Out
   | .onPacketAck set => (onPacketAck s set, .ok)
   | .onPacketLoss set => (onPacketLoss s set, .ok)
   | .onHandshakeConfirmed => (onHandshakeConfirmed s, .ok)
-  | .newIds gen e => connOnNewConnectionId s gen e
   | .envInsert id owner =>
     if owner = s.internalId then (s, .ok)
     else match mapTryInsert s.map id owner with
